@@ -4,7 +4,7 @@ import concurrent.futures as cf, json, os, shutil, subprocess
 from .. import common as C
 from ..prop import Check
 
-FAMILIES = [("nas_cipher", 300), ("nas_mac", 300), ("nas_protect", 200), ("nas_codec", 300), ("ngap_codec", 40), ("key_derive", 200), ("key_derive_shared", 300), ("milenage", 300), ("nas_cipher_aes", 2000), ("nas_mac_aes", 2000), ("nas_unprotect", 300), ("ngap_decode_errors", 300)]
+FAMILIES = [("nas_cipher", 300), ("nas_mac", 300), ("nas_protect", 200), ("nas_codec", 300), ("ngap_codec", 40), ("key_derive", 200), ("key_derive_shared", 300), ("milenage", 300), ("nas_cipher_aes", 2000), ("nas_mac_aes", 2000), ("nas_unprotect", 300), ("ngap_decode_errors", 300), ("ngap_decode_unknown_ie", 300)]
 
 
 def build_footprints():
@@ -74,7 +74,7 @@ class C20(Check):
                                 "how_to_replay": "echo '%s' | .work/bin/harness_race conc" % json.dumps(case)})
         self.cov["runtime"] = rows
         self.cov["samples"].append({"runtime": rows[:3]})
-        self.cov["rule"] = ("12 operation families x G goroutines x N calls each for its own UE, first sequentially then concurrently under the race detector; "
+        self.cov["rule"] = ("13 operation families x G goroutines x N calls each for its own UE, first sequentially then concurrently under the race detector; "
                             "distinct_nontrivial counts operation families")
         # at least two distinct cases for the evidence schema
         self._distinct.add("footprints")
